@@ -76,7 +76,10 @@ def shape_job(args):
     maxb = bound if isinstance(bound, int) else max(bound.values())
     r, g, d = metacheck.model_check(schema, bound, maxi=maxb, workers=4)
     budget = 6000 if tier == 'quick' else None
-    ts, covered, total = tours.tours(g, maxlen=40, budget=budget, seed=seed)
+    # accepted and multiplicity-/state-dependent outcomes first, unknown-link rejections last
+    dull = ('UnknownLinkException', '\\"False\\"')
+    stages = [(lambda lab, dst: not any(x in dst for x in dull), 0.75), (lambda lab, dst: True, 0.25)]
+    ts, covered, total = tours.staged_tours(g, stages, maxlen=40, budget=budget, seed=seed)
     runs = [{'acts': [metacheck.to_act(l) for l in t], 'src': 'tour'} for t in ts]
     # simulated behaviours of a larger instance
     mod, cfg, _ = metacheck.mc_files(schema, 4, maxi=4, invariants=[], properties=[])
